@@ -44,12 +44,19 @@ var heapTargets = []target{
 	{"simple_tree_grower.go", "defaultGrowerSimple.assembleBranchDirectly"},
 	{"simple_tree_grower.go", "defaultGrowerSimple.assembleBranchIndirectly"},
 	{"simple_tree_grower.go", "defaultGrowerSimple.assembleBranchFinally"},
+	{"file_considerer.go", "fileConsiderer.isFile"},
+	{"simple_tree_mkdirer.go", "defaultMkdirerSimple.mkdir"},
+	{"simple_tree_mkdirer.go", "defaultMkdirerSimple.isExistRoot"},
+	{"simple_tree_mkdirer.go", "defaultMkdirerSimple.makeDirectoriesAndFiles"},
+	{"simple_tree_mkdirer.go", "defaultMkdirerSimple.mkdirAll"},
+	{"simple_tree_mkdirer.go", "defaultMkdirerSimple.mkfile"},
 }
 
 // structs that live in the heap (handled through pointers) and value structs generated here; other value structs
 // (branch, branchFormat) are the ones of Generated/Source.lean
 var heapStructs = map[string]string{"Node": "node.go"}
-var heapValueStructs = map[string]string{"defaultGrowerSimple": "simple_tree_grower.go"}
+var heapValueStructs = map[string]string{"defaultGrowerSimple": "simple_tree_grower.go", "fileConsiderer": "file_considerer.go",
+	"defaultMkdirerSimple": "simple_tree_mkdirer.go"}
 var srcStructs = map[string]string{"branch": "node.go", "branchFormat": "simple_tree_grower.go"}
 
 type hfn struct {
@@ -61,7 +68,9 @@ type hfn struct {
 	params   [][2]string
 	results  []string
 	variadic bool
-	mutates  bool
+	mutates  bool // assigns through a heap pointer
+	usesFS   bool // reads the file system (os.Stat)
+	writesFS bool // changes the file system (os.MkdirAll, os.Create)
 	fuel     bool
 	rec      bool
 	calls    map[string]bool
@@ -71,6 +80,7 @@ type htr struct {
 	fset    *token.FileSet
 	structs map[string][][2]string // struct -> fields (name, Go type)
 	consts  map[string]bool
+	sentinels map[string]bool
 	fns     map[string]*hfn
 	errs    []string
 }
@@ -141,7 +151,7 @@ func isHeapPtr(g string) bool {
 }
 
 func heapMain(repo, out string) []string {
-	t := &htr{fset: token.NewFileSet(), structs: map[string][][2]string{}, consts: map[string]bool{}, fns: map[string]*hfn{}}
+	t := &htr{fset: token.NewFileSet(), structs: map[string][][2]string{}, consts: map[string]bool{}, sentinels: map[string]bool{}, fns: map[string]*hfn{}}
 	need := map[string]bool{}
 	for _, tg := range heapTargets {
 		need[tg.file] = true
@@ -175,6 +185,19 @@ func heapMain(repo, out string) []string {
 						if x.Tok == token.CONST {
 							for _, n := range s.Names {
 								t.consts[n.Name] = true
+							}
+						}
+						if x.Tok == token.VAR {
+							for i, n := range s.Names {
+								if i < len(s.Values) {
+									if ce, ok := s.Values[i].(*ast.CallExpr); ok {
+										if se, ok := ce.Fun.(*ast.SelectorExpr); ok {
+											if pk, ok := se.X.(*ast.Ident); ok && pk.Name == "errors" && se.Sel.Name == "New" {
+												t.sentinels[n.Name] = true
+											}
+										}
+									}
+								}
 							}
 						}
 					case *ast.TypeSpec:
@@ -253,6 +276,76 @@ type hscope struct {
 	vars  map[string]string // name -> Go type
 	order []string          // declaration order
 }
+
+// externals with an effect on (or a look at) the file system: the Lean function, whether it returns a new file
+// system, how many of the Go arguments it takes, and the Go results ("~T" = a result the translation does not
+// represent: the *os.File of os.Create, the FileInfo of os.Stat)
+type ext struct {
+	lean    string
+	writes  bool
+	nargs   int
+	results []string
+}
+
+var externals = map[string]ext{
+	"os.Stat":     {"Go.os_Stat", false, 1, []string{"~os.FileInfo", "error"}},
+	"os.MkdirAll": {"Go.os_MkdirAll", true, 1, []string{"error"}},
+	"os.Create":   {"Go.os_Create", true, 1, []string{"~*os.File", "error"}},
+}
+
+func extOf(call *ast.CallExpr) (ext, bool) {
+	if se, ok := call.Fun.(*ast.SelectorExpr); ok {
+		if p, ok := se.X.(*ast.Ident); ok {
+			e, ok := externals[p.Name+"."+se.Sel.Name]
+			return e, ok
+		}
+	}
+	return ext{}, false
+}
+
+// outs: the world components a function returns (before its results); ins: the ones it takes
+func (f *hfn) outs() []string {
+	var o []string
+	if f.mutates {
+		o = append(o, "h_")
+	}
+	if f.writesFS {
+		o = append(o, "fs_")
+	}
+	return o
+}
+func (f *hfn) ins() []string {
+	i := []string{"h_"}
+	if f.usesFS || f.writesFS {
+		i = append(i, "fs_")
+	}
+	return i
+}
+
+// a call that has to be bound by a statement: a translated function with an effect or fuel, or an external
+type callee struct {
+	fn      *hfn
+	ext     *ext
+	outs    []string
+	results []string // Go result types; "~…" = not represented
+	fuel    bool
+}
+
+func (t *htr) resolve(sc *hscope, call *ast.CallExpr) *callee {
+	if g, _ := t.calleeOf(sc, call); g != nil {
+		return &callee{fn: g, outs: g.outs(), results: g.results, fuel: g.fuel}
+	}
+	if e, ok := extOf(call); ok {
+		var o []string
+		if e.writes {
+			o = []string{"fs_"}
+		}
+		return &callee{ext: &e, outs: o, results: e.results}
+	}
+	return nil
+}
+
+func (c *callee) effectful() bool { return len(c.outs) > 0 || c.fuel || c.ext != nil }
 
 func (sc *hscope) clone() *hscope {
 	m := map[string]string{}
@@ -347,11 +440,14 @@ func (t *htr) typeOf(sc *hscope, e ast.Expr) string {
 			}
 		}
 		if se, ok := x.Fun.(*ast.SelectorExpr); ok {
+			if se.Sel.Name == "Close" && t.typeOf(sc, se.X) == "*os.File" {
+				return "error"
+			}
 			if p, ok := se.X.(*ast.Ident); ok {
 				switch p.Name + "." + se.Sel.Name {
-				case "path.Join", "strings.TrimSuffix":
+				case "path.Join", "strings.TrimSuffix", "filepath.Join":
 					return "string"
-				case "fs.ValidPath", "strings.ContainsAny":
+				case "fs.ValidPath", "strings.ContainsAny", "strings.HasSuffix", "os.IsNotExist":
 					return "bool"
 				case "fmt.Errorf":
 					return "error"
@@ -406,6 +502,12 @@ func (t *htr) analyse() {
 				if g, _ := t.calleeOf(sc, x); g != nil {
 					f.calls[g.key] = true
 				}
+				if e, ok := extOf(x); ok {
+					f.usesFS = true
+					if e.writes {
+						f.writesFS = true
+					}
+				}
 			}
 			return true
 		})
@@ -441,6 +543,12 @@ func (t *htr) analyse() {
 				}
 				if g.fuel && !f.fuel {
 					f.fuel, changed = true, true
+				}
+				if (g.usesFS || g.writesFS) && !f.usesFS {
+					f.usesFS, changed = true, true
+				}
+				if g.writesFS && !f.writesFS {
+					f.writesFS, changed = true, true
 				}
 			}
 		}
@@ -495,6 +603,9 @@ func (t *htr) ex(sc *hscope, e ast.Expr, want string) string {
 		}
 		if t.consts[x.Name] {
 			return "Src." + id(x.Name)
+		}
+		if t.sentinels[x.Name] {
+			return "(some Src.Err." + x.Name + ")"
 		}
 		return t.fail(x.Pos(), "identifier %s", x.Name)
 	case *ast.SelectorExpr:
@@ -563,11 +674,14 @@ func (t *htr) ex(sc *hscope, e ast.Expr, want string) string {
 		}
 		return t.fail(x.Pos(), "index into %s", bt)
 	case *ast.CallExpr:
-		if g, _ := t.calleeOf(sc, x); g != nil {
-			if g.mutates || g.fuel {
-				return t.fail(x.Pos(), "call of %s (assigns through a pointer, or is bounded by fuel) inside an expression", g.key)
+		if c := t.resolve(sc, x); c != nil {
+			if len(c.outs) > 0 || c.fuel {
+				return t.fail(x.Pos(), "call with an effect (or bounded by fuel) inside an expression")
 			}
-			return t.call(sc, x, g)
+			return t.call(sc, x, c)
+		}
+		if se, ok := x.Fun.(*ast.SelectorExpr); ok && se.Sel.Name == "Close" && t.typeOf(sc, se.X) == "*os.File" {
+			return "none" // closing the file os.Create has just returned does not fail in the file-system model
 		}
 		var args []string
 		if idt, ok := x.Fun.(*ast.Ident); ok {
@@ -595,6 +709,12 @@ func (t *htr) ex(sc *hscope, e ast.Expr, want string) string {
 					return "(Go.path_Join [" + strings.Join(args, ", ") + "])"
 				case "strings.TrimSuffix":
 					return "(Go.strings_TrimSuffix " + strings.Join(args, " ") + ")"
+				case "strings.HasSuffix":
+					return "(Go.strings_HasSuffix " + strings.Join(args, " ") + ")"
+				case "filepath.Join":
+					return "(Go.filepath_Join [" + strings.Join(args, ", ") + "])"
+				case "os.IsNotExist":
+					return "(Go.os_IsNotExist " + args[0] + ")"
 				case "strings.ContainsAny":
 					return "(Go.strings_ContainsAny " + strings.Join(args, " ") + ")"
 				case "fs.ValidPath":
@@ -609,14 +729,22 @@ func (t *htr) ex(sc *hscope, e ast.Expr, want string) string {
 	return t.fail(e.Pos(), "expression %T", e)
 }
 
-// call: the Lean application for a call of a translated function (fuel and heap first)
-func (t *htr) call(sc *hscope, x *ast.CallExpr, g *hfn) string {
+// call: the Lean application for a call of a translated function or an external (fuel and world components first)
+func (t *htr) call(sc *hscope, x *ast.CallExpr, c *callee) string {
+	if c.ext != nil {
+		parts := []string{c.ext.lean, "fs_"}
+		for i := 0; i < c.ext.nargs && i < len(x.Args); i++ {
+			parts = append(parts, t.ex(sc, x.Args[i], t.typeOf(sc, x.Args[i])))
+		}
+		return "(" + strings.Join(parts, " ") + ")"
+	}
+	g := c.fn
 	_, recv := t.calleeOf(sc, x)
 	parts := []string{leanFn(g)}
 	if g.fuel {
 		parts = append(parts, "fuel_")
 	}
-	parts = append(parts, "h_")
+	parts = append(parts, g.ins()...)
 	if recv != nil {
 		parts = append(parts, t.ex(sc, recv, g.recvType))
 	}
@@ -683,9 +811,7 @@ func hleaves(stmts []ast.Stmt) bool {
 // fnValue: the value a `return vals` produces for function f
 func (t *htr) fnValue(f *hfn, vals []string) string {
 	var parts []string
-	if f.mutates {
-		parts = append(parts, "h_")
-	}
+	parts = append(parts, f.outs()...)
 	parts = append(parts, vals...)
 	v := "()"
 	if len(parts) == 1 {
@@ -755,14 +881,16 @@ func (t *htr) assigned(sc *hscope, stmts []ast.Stmt) []string {
 	return out
 }
 
-// bindCall: `lhs… := g(args)` or the bare call statement; returns the Lean text that binds the heap and the results
-func (t *htr) bindCall(sc *hscope, lhs []string, x *ast.CallExpr, g *hfn, c *hcont, ind string) string {
+// bindCall: `lhs… := g(args)` or the bare call statement; returns the Lean text that binds the world components
+// the callee returns and its results
+func (t *htr) bindCall(sc *hscope, lhs []string, x *ast.CallExpr, g *callee, c *hcont, ind string) string {
 	app := t.call(sc, x, g)
 	var names []string
-	if g.mutates {
-		names = append(names, "h_")
-	}
-	for i := range g.results {
+	names = append(names, g.outs...)
+	for i, r := range g.results {
+		if strings.HasPrefix(r, "~") {
+			continue
+		}
 		if i < len(lhs) {
 			names = append(names, lhs[i])
 		} else {
@@ -798,7 +926,7 @@ func (t *htr) seq(sc *hscope, stmts []ast.Stmt, c *hcont, ind string) string {
 				want = f.results[i]
 			}
 			if call, ok := r.(*ast.CallExpr); ok {
-				if g, _ := t.calleeOf(sc, call); g != nil && (g.mutates || g.fuel) && len(x.Results) == 1 {
+				if g := t.resolve(sc, call); g != nil && (len(g.outs) > 0 || g.fuel) && len(x.Results) == 1 {
 					// `return g(…)`
 					pre := t.bindCall(sc, []string{"r0_"}, call, g, c, ind)
 					return pre + ind + c.retRaw(t.fnValue(f, []string{"r0_"})) + "\n"
@@ -820,7 +948,7 @@ func (t *htr) seq(sc *hscope, stmts []ast.Stmt, c *hcont, ind string) string {
 		if !ok {
 			return ind + t.fail(x.Pos(), "expression statement") + "\n"
 		}
-		g, _ := t.calleeOf(sc, call)
+		g := t.resolve(sc, call)
 		if g == nil {
 			return ind + t.fail(x.Pos(), "call statement of an untranslated function") + "\n"
 		}
@@ -866,10 +994,7 @@ func (t *htr) seq(sc *hscope, stmts []ast.Stmt, c *hcont, ind string) string {
 		if !strings.HasPrefix(bt, "[]") {
 			return ind + t.fail(x.Pos(), "range over %s", bt)
 		}
-		state := t.assigned(sc, x.Body.List)
-		if f.mutates {
-			state = append([]string{"h_"}, state...)
-		}
+		state := append(append([]string{}, f.outs()...), t.assigned(sc, x.Body.List)...)
 		body := sc.clone()
 		body.declare(v.Name, bt[2:])
 		lc := &hcont{
@@ -906,10 +1031,7 @@ func (t *htr) seq(sc *hscope, stmts []ast.Stmt, c *hcont, ind string) string {
 		if x.Post != nil {
 			stmts = append(stmts, x.Post)
 		}
-		state := t.assigned(sc2, stmts)
-		if f.mutates {
-			state = append([]string{"h_"}, state...)
-		}
+		state := append(append([]string{}, f.outs()...), t.assigned(sc2, stmts)...)
 		lc := &hcont{
 			retRaw: func(val string) string { return "Go.Ctl.ret " + val },
 			none:   func() string { return "Go.Ctl.ret none" },
@@ -939,7 +1061,7 @@ func (t *htr) seq(sc *hscope, stmts []ast.Stmt, c *hcont, ind string) string {
 func (t *htr) assignH(sc *hscope, x *ast.AssignStmt, c *hcont, ind string) string {
 	if len(x.Rhs) == 1 {
 		if call, ok := x.Rhs[0].(*ast.CallExpr); ok {
-			if g, _ := t.calleeOf(sc, call); g != nil && (g.mutates || g.fuel) {
+			if g := t.resolve(sc, call); g != nil && g.effectful() {
 				var lhs []string
 				for i, l := range x.Lhs {
 					idt, ok := l.(*ast.Ident)
@@ -951,7 +1073,7 @@ func (t *htr) assignH(sc *hscope, x *ast.AssignStmt, c *hcont, ind string) strin
 						continue
 					}
 					if i < len(g.results) {
-						sc.declare(idt.Name, g.results[i])
+						sc.declare(idt.Name, strings.TrimPrefix(g.results[i], "~"))
 					}
 					lhs = append(lhs, id(idt.Name))
 				}
@@ -1016,7 +1138,7 @@ func (t *htr) render() string {
 	var b strings.Builder
 	b.WriteString("-- GENERATED by /verif/translate (heap mode, heap.go) from /repo's sources on every run of a check; do not edit.\n")
 	b.WriteString("-- Pointer code of gtree translated statement by statement over an explicit heap: `*Node` is a `Go.Ptr`, `p.f` is\n-- `(h_ p).f`, an assignment through a pointer is `Heap.set`; recursion and three-clause loops are bounded by fuel\n-- (`none` = bound reached).  `Lemmas/HeapGrower.lean` relates these definitions to the hand-written model.\n")
-	b.WriteString("import Gtree.Generated.Source\nimport Gtree.Go.Heap\nset_option linter.unusedVariables false\nnamespace Gtree.SrcH\nopen Gtree\n\n")
+	b.WriteString("import Gtree.Generated.Source\nimport Gtree.Go.Heap\nimport Gtree.Go.OS\nset_option linter.unusedVariables false\nnamespace Gtree.SrcH\nopen Gtree\n\n")
 	if len(t.errs) > 0 {
 		b.WriteString("-- the translator met constructs it does not translate:\n")
 		for _, e := range t.errs {
@@ -1044,12 +1166,35 @@ func (t *htr) render() string {
 		vs = append(vs, s)
 	}
 	sort.Strings(vs)
-	for _, s := range vs {
-		b.WriteString("structure " + s + " where\n")
-		for _, f := range t.structs[s] {
-			b.WriteString("  " + id(f[0]) + " : " + t.leanType(f[1]) + "\n")
+	emitted := map[string]bool{}
+	for len(emitted) < len(vs) {
+		progress := false
+		for _, s := range vs {
+			if emitted[s] {
+				continue
+			}
+			ready := true
+			for _, f := range t.structs[s] {
+				for _, o := range vs {
+					if o != s && !emitted[o] && strings.TrimPrefix(f[1], "*") == o {
+						ready = false
+					}
+				}
+			}
+			if !ready {
+				continue
+			}
+			b.WriteString("structure " + s + " where\n")
+			for _, f := range t.structs[s] {
+				b.WriteString("  " + id(f[0]) + " : " + t.leanType(f[1]) + "\n")
+			}
+			b.WriteString("\n")
+			emitted[s], progress = true, true
 		}
-		b.WriteString("\n")
+		if !progress {
+			t.errs = append(t.errs, "value structs depend on each other in a cycle")
+			break
+		}
 	}
 	// functions in dependency order; the members of a recursive cycle in one mutual block
 	var names []string
@@ -1099,8 +1244,12 @@ func (t *htr) function(f *hfn) string {
 		sig.WriteString(" (" + id(p[0]) + " : " + t.leanType(p[1]) + ")")
 	}
 	var rts []string
-	if f.mutates {
-		rts = append(rts, "Heap")
+	for _, o := range f.outs() {
+		if o == "h_" {
+			rts = append(rts, "Heap")
+		} else {
+			rts = append(rts, "FS")
+		}
 	}
 	for _, r := range f.results {
 		rts = append(rts, t.leanType(r))
@@ -1117,17 +1266,21 @@ func (t *htr) function(f *hfn) string {
 		none:   func() string { return "none" },
 		fall:   func(*hscope) string { return t.fnValue(f, nil) },
 	}
+	fsig := ""
+	if f.usesFS || f.writesFS {
+		fsig = " (fs_ : FS)"
+	}
 	if f.rec {
 		// a recursive function: structural recursion on the fuel
-		b.WriteString("def " + leanFn(f) + " (fuel_ : Nat) (h_ : Heap)" + sig.String() + " : " + rt + " :=\n")
+		b.WriteString("def " + leanFn(f) + " (fuel_ : Nat) (h_ : Heap)" + fsig + sig.String() + " : " + rt + " :=\n")
 		b.WriteString("  match fuel_ with\n  | 0 => none\n  | fuel_ + 1 =>\n")
 		b.WriteString(t.seq(sc, f.decl.Body.List, c, "    "))
 		return b.String()
 	}
 	if f.fuel {
-		b.WriteString("def " + leanFn(f) + " (fuel_ : Nat) (h_ : Heap)" + sig.String() + " : " + rt + " :=\n")
+		b.WriteString("def " + leanFn(f) + " (fuel_ : Nat) (h_ : Heap)" + fsig + sig.String() + " : " + rt + " :=\n")
 	} else {
-		b.WriteString("def " + leanFn(f) + " (h_ : Heap)" + sig.String() + " : " + rt + " :=\n")
+		b.WriteString("def " + leanFn(f) + " (h_ : Heap)" + fsig + sig.String() + " : " + rt + " :=\n")
 	}
 	b.WriteString(t.seq(sc, f.decl.Body.List, c, "  "))
 	return b.String()
